@@ -126,3 +126,146 @@ def fold_max_steps(m: Model):
                 want = has and steps >= mx
                 results.append((got == want, f'_is_max_steps_exceeded HAS_STEP_LIMIT={has} steps={steps} max_steps={mx} open={nopen}', f'{got} (want {want})'))
     return results, [m.loc(TAB, fn) + ' Tableau._is_max_steps_exceeded']
+
+
+# ---- folds of the step loop ---------------------------------------------------
+class _CM:
+    "context manager mock (timers / StopWatch)"
+
+    def __init__(self, log=None, name='cm'):
+        self.log, self.name = log, name
+
+    def __enter__(self):
+        return self
+
+    def __exit__(self, *a):
+        return False
+
+    def elapsed_ms(self):
+        return 0
+
+
+def _mk_tab(m, Flag, flags, log):
+    tab = Obj('tableau', flag=flags, opts={'is_build_models': True, 'build_timeout': 10}, logic='LOGIC', models=frozenset())
+    tab.timers = Obj('timers', build=_CM(), models=_CM(), tree=_CM(), trunk=_CM())
+    return tab
+
+
+def fold_step(m: Model):
+    """Fold Tableau.step over: finished / step limit hit / nothing to apply / an applicable entry.
+    Returns [(ok, case, detail)]."""
+    Flag = flag_enum(m)
+    step = m.func(TAB, 'Tableau.step')
+    out = []
+    for finished in (False, True):
+        for exceeded in (False, True):
+            for has_entry in (False, True):
+                log = []
+                flags = Flag.PREMATURE | (Flag.FINISHED if finished else Flag(0))
+                tab = _mk_tab(m, Flag, flags, log)
+                entry = Obj('entry', target='TARGET', duration=Obj('dur', inc=lambda x: log.append('inc')))
+                entry.rule = Obj('rule', apply=lambda t: log.append(('apply', t)))
+                tab._check_timeout = lambda: log.append('check_timeout')
+                tab._is_max_steps_exceeded = lambda: (log.append('limit?'), exceeded)[1]
+                tab.next = lambda: (log.append('next'), entry if has_entry else None)[1]
+                tab.finish = lambda: log.append('finish')
+                it = Interp(dict(StopWatch=lambda: _CM()), where='proof/tableaux.py Tableau.step')
+                r = it.safe(step, [tab])
+                case = f'FINISHED={finished} limit_exceeded={exceeded} applicable_entry={has_entry}'
+                prem = Flag.PREMATURE in tab.flag
+                if finished:
+                    ok = r is None and log == [] and tab.flag == flags
+                    want = 'no effect at all'
+                elif exceeded:
+                    ok = r is None and 'next' not in log and not any(isinstance(x, tuple) for x in log) and 'finish' in log and prem \
+                        and log and log[0] == 'check_timeout'
+                    want = 'no rule looked up or applied, finish() called, PREMATURE kept'
+                elif not has_entry:
+                    ok = r is None and 'next' in log and 'limit?' in log and 'finish' in log and not prem and not any(isinstance(x, tuple) for x in log) \
+                        and log[0] == 'check_timeout' and log.index('limit?') < log.index('next')
+                    want = 'next() consulted after the limit test, PREMATURE cleared, finish() called'
+                else:
+                    ok = r is entry and log.count(('apply', 'TARGET')) == 1 and 'finish' not in log and prem and 'limit?' in log and 'next' in log \
+                        and log[0] == 'check_timeout' and log.index('limit?') < log.index('next') < log.index(('apply', 'TARGET'))
+                    want = 'exactly one rule.apply(entry.target) after the limit test, entry returned, not finished, PREMATURE kept'
+                out.append((ok, case, f'expected {want}; observed return={r!r} premature={prem} calls={log}'))
+    return out, [m.loc(TAB, step) + ' Tableau.step']
+
+
+def fold_finish(m: Model):
+    Flag = flag_enum(m)
+    fin = m.func(TAB, 'Tableau.finish')
+    out = []
+    for finished in (False, True):
+        for invalid in (False, True):
+            for timed_out in (False, True):
+                for build_models in (False, True):
+                    log = []
+                    flags = (Flag.FINISHED if finished else Flag(0)) | (Flag.TIMED_OUT if timed_out else Flag(0))
+                    tab = _mk_tab(m, Flag, flags, log)
+                    tab.opts['is_build_models'] = build_models
+                    tab.invalid = invalid
+                    tab._gen_models = lambda: (log.append(('gen_models', Flag.FINISHED in tab.flag)), ['M1'])[1]
+                    tab.Tree = Obj('Tree', make=lambda t: (log.append(('tree', Flag.FINISHED in tab.flag)), 'TREE')[1])
+                    tab._compute_stats = lambda: (log.append('stats'), 'STATS')[1]
+                    tab.emit = lambda ev, *a: log.append(('emit', ev))
+                    it = Interp(dict(Tableau=Obj('Tableau', Events=Obj('Events', AFTER_FINISH='AFTER_FINISH')), ProofTimeoutError='ProofTimeoutError'),
+                                where='proof/tableaux.py Tableau.finish')
+                    r = it.safe(fin, [tab])
+                    case = f'FINISHED={finished} invalid={invalid} TIMED_OUT={timed_out} is_build_models={build_models}'
+                    if finished:
+                        ok = r is tab and log == []
+                        want = 'no effect'
+                    else:
+                        gm = [x for x in log if isinstance(x, tuple) and x[0] == 'gen_models']
+                        tr = [x for x in log if isinstance(x, tuple) and x[0] == 'tree']
+                        ok = r is tab and Flag.FINISHED in tab.flag and all(x[1] for x in gm + tr) \
+                            and (len(gm) == 1) == (invalid and build_models) and (len(tr) == 1) == (not timed_out) \
+                            and 'stats' in log and ('emit', 'AFTER_FINISH') in log
+                        want = ('FINISHED set before any post-build task; models iff invalid and is_build_models; tree unless timed out; '
+                                'stats computed; AFTER_FINISH emitted')
+                    out.append((ok, case, f'expected {want}; observed return={"self" if r is tab else r!r} flag={tab.flag!r} calls={log}'))
+    return out, [m.loc(TAB, fin) + ' Tableau.finish']
+
+
+def fold_check_timeout(m: Model):
+    Flag = flag_enum(m)
+    fn = m.func(TAB, 'Tableau._check_timeout')
+    from .minieval import Raises
+    out = []
+    for has_limit in (False, True):
+        for elapsed in (5, 10, 11):
+            log = []
+            flags = Flag.HAS_TIME_LIMIT if has_limit else Flag(0)
+            tab = Obj('tableau', flag=flags, opts={'build_timeout': 10})
+            tab.timers = Obj('timers', build=Obj('sw', elapsed_ms=lambda: elapsed))
+            tab.finish = lambda: log.append(('finish', Flag.TIMED_OUT in tab.flag))
+            it = Interp(dict(Emsg=Obj('Emsg', Timeout=lambda *a: 'ProofTimeoutError')), where='proof/tableaux.py Tableau._check_timeout')
+            r = it.safe(fn, [tab])
+            case = f'HAS_TIME_LIMIT={has_limit} elapsed={elapsed}ms timeout=10ms'
+            if has_limit and elapsed > 10:
+                ok = isinstance(r, Raises) and 'Timeout' in r.text and log == [('finish', True)] and Flag.TIMED_OUT in tab.flag
+                want = 'TIMED_OUT set, then finish(), then the timeout error raised'
+            else:
+                ok = r is None and log == [] and Flag.TIMED_OUT not in tab.flag
+                want = 'no effect'
+            out.append((ok, case, f'expected {want}; observed result={r!r} calls={log} flag={tab.flag!r}'))
+    return out, [m.loc(TAB, fn) + ' Tableau._check_timeout']
+
+
+def fold_next(m: Model):
+    "Tableau.next: first non-empty group application, open branches outermost, groups in order"
+    fn = m.func(TAB, 'Tableau.next')
+    out = []
+    branches, groups = ['b0', 'b1'], ['g0', 'g1', 'g2']
+    for hit in [None] + [(b, g) for b in branches for g in groups]:
+        log = []
+        tab = Obj('tableau', open=list(branches), rules=Obj('rules', groups=list(groups)))
+        tab._get_group_application = lambda b, g: (log.append((b, g)), 'ENTRY' if hit is not None and (b, g) >= hit else None)[1]
+        it = Interp({}, where='proof/tableaux.py Tableau.next')
+        r = it.safe(fn, [tab])
+        order = [(b, g) for b in branches for g in groups]
+        want_log = order if hit is None else order[:order.index(hit) + 1]
+        ok = (r is None if hit is None else r == 'ENTRY') and log == want_log
+        out.append((ok, f'first applicable (branch, group) = {hit}', f'returned {r!r} after consulting {log}; expected consultation order {want_log}'))
+    return out, [m.loc(TAB, fn) + ' Tableau.next']
